@@ -61,3 +61,7 @@ Theorem C23_no_lost_committed_write :
                       /\ tcell U (e_snap e') k col = tcell U (e_work ei) k col).
 Proof. exact no_lost_committed_write. Qed.
 Print Assumptions C23_no_lost_committed_write.
+
+Theorem C23_oracle_accepts_model : forall i, oracle i (model_obs i) = true.
+Proof. exact oracle_accepts_model. Qed.
+Print Assumptions C23_oracle_accepts_model.
